@@ -67,7 +67,7 @@ fn replay(args: &[String]) {
         let model = run_driver(driver, &[req.to_string()]);
         let model = model.get(0).cloned().unwrap_or_default();
         let mut st = OpStats::default();
-        let verdict = compare(&imp, &model, tol, &mut st);
+        let verdict = compare(&imp, &model, tol, &mut st, request_scale(req));
         println!("request: {}", clip(req, 400));
         println!("  impl : {}", clip(&imp, 400));
         println!("  model: {}", clip(&model, 400));
@@ -165,7 +165,7 @@ fn run(args: &[String]) {
         let op = req.split_whitespace().next().unwrap_or("").to_string();
         let st = stats.entry(op.clone()).or_default();
         let model = models.get(i).cloned().unwrap_or_else(|| "bad missing".into());
-        if let Some(reason) = compare(&imps[i], &model, *tol, st) {
+        if let Some(reason) = compare(&imps[i], &model, *tol, st, request_scale(req)) {
             if disagreements.len() < 40 {
                 disagreements.push(format!(
                     "{{\"op\":{},\"tol\":{},\"reason\":{},\"request\":{},\"impl\":{},\"model\":{}}}",
